@@ -153,6 +153,9 @@ func (k *Check) Parts(n int) { k.partsLeft = n }
 
 // share returns the deadline of the next part and counts it.
 func (k *Check) share(explicit float64) float64 {
+	if k.only != "" {
+		return 0 // a companion process runs one part: its whole budget is that part's share
+	}
 	d := explicit
 	if d == 0 && k.partsLeft > 1 {
 		d = k.Within(1 / float64(k.partsLeft))
